@@ -446,6 +446,49 @@ def leak_check(case):
     return None
 
 
+def memcheck_shard(cases):
+    """Run the scenarios of one shard, unpinned, under valgrind memcheck (C
+    implementation). Returns dict(rc, fired, last, tail); rc 99 = memcheck
+    reported an invalid access/free, negative = the interpreter died."""
+    import pickle
+    import shutil
+    import subprocess
+    if not shutil.which('valgrind'):
+        return dict(rc=None, fired=0, last=-1, tail='valgrind not installed')
+    work = os.environ.get('VERIF_WORK', '/verif/.work')
+    os.makedirs(work, exist_ok=True)
+    path = os.path.join(work, 'memcheck-%d.pkl' % os.getpid())
+    with open(path, 'wb') as f:
+        pickle.dump([tuple(c) for c in cases], f)
+    env = dict(os.environ, PYTHONMALLOC='malloc', PURE_PYTHON='0', PYTHONHASHSEED='0')
+    here = os.path.dirname(os.path.abspath(__file__))
+    r = subprocess.run(['valgrind', '-q', '--error-exitcode=99', '--undef-value-errors=no',
+                        '--num-callers=12', sys.executable, os.path.join(here, 'c11_memcheck.py'), path],
+                       env=env, capture_output=True, text=True)
+    try:
+        os.unlink(path)
+    except OSError:
+        pass
+    err = r.stderr
+    last = -1
+    fired = 0
+    first_report = err.find('== Invalid')
+    if first_report < 0:
+        first_report = err.find('==ERROR')
+    scan = err if first_report < 0 else err[:first_report]
+    for line in scan.splitlines():
+        if line.startswith('@@SCENARIO'):
+            last = int(line.split()[1])
+    for line in err.splitlines():
+        if line.startswith('@@DONE'):
+            fired = int(line.split()[1])
+    tail = ''
+    if r.returncode != 0:
+        k = err.find('==', max(0, first_report - 20)) if first_report >= 0 else 0
+        tail = err[k:k + 2500]
+    return dict(rc=r.returncode, fired=fired, last=last, tail=tail)
+
+
 def evaluate(arg):
     cases, with_leak = arg
     viol = []
@@ -663,6 +706,11 @@ def replay(case):
         if (out, repr(v)) != (out2, repr(v2)):
             return dict(error='replay is not deterministic', first=repr(v), second=repr(v2))
         return dict(violation=v) if v else None
+    if case['kind'] == 'memcheck':
+        r = memcheck_shard([tuple(c) for c in case['cases']])
+        if r['rc'] not in (0, None):
+            return dict(violation='memcheck reports an invalid access', rc=r['rc'], report=r['tail'])
+        return None
     if case['kind'] == 'crash':
         # re-run the journalled schedule; a crash kills this process
         return replay(dict(case, kind='schedule'))
@@ -750,6 +798,50 @@ def run(ctx):
         ctx.log(impl, 'injection scenarios that reached their site:', ninj)
         ctx.info['%s/injection_scenarios' % impl] = ninj
     ctx.add(fault_scenarios=ninj)
+    # (a2) the same scenarios, unpinned, under valgrind memcheck (C implementation):
+    # an independent oracle for "memory is never corrupted"
+    MUT_ACTIONS = ('register-better', 'unregister-winner', 'subscribe', 'unsubscribe',
+                   'register-in-base', 'rebase-registry', 'rebase-interface', 'changed',
+                   'lookup.changed', 'register-then-raise', 'changed-then-gc', 'reenter-other')
+    if quick:
+        mc = [c for c in cases if c[3] in MUT_ACTIONS and
+              (c[2].startswith('uncached') or c[2] in ('generation', 'required-iter'))]
+    else:
+        mc = list(cases)
+    # keep only scenarios that can reach their site (cheap pre-filter by pairing)
+    def pairs(c):
+        e, site = c[1], c[2]
+        if site.startswith('uncached_lookupAll'):
+            return e in ('lookupAll', 'names')
+        if site.startswith('uncached_subscriptions'):
+            return e in ('subscriptions', 'subscribers')
+        if site.startswith('uncached_lookup'):
+            return e not in ('lookupAll', 'names', 'subscriptions', 'subscribers')
+        if site == 'generation':
+            return c[0] == 'verifying'
+        if site == 'required-iter':
+            return e in LAZY_OK
+        return True
+    mc = [c for c in mc if pairs(c)]
+    shards = [mc[i::NPROC] for i in range(NPROC)]
+    shards = [sh for sh in shards if sh]
+    res = ctx.pool('c', capture_stderr=True).map('c11', 'memcheck_shard', shards)
+    nmem = 0
+    for sh, r in zip(shards, res):
+        if isinstance(r, Crash) or r['rc'] is None:
+            ctx.cap('memcheck pass skipped: %s' % (getattr(r, 'stderr_tail', None) or r.get('tail')))
+            break
+        nmem += r['fired']
+        if r['rc'] != 0:
+            upto = sh[:r['last'] + 1] if r['last'] >= 0 else sh
+            ctx.violation(dict(sig='C11:memcheck:invalid-access', impl='c',
+                               case=dict(kind='memcheck', cases=upto),
+                               detail=dict(what='valgrind memcheck (PYTHONMALLOC=malloc) reports an invalid read/write/free while the unpinned injection scenarios run',
+                                           first_report_during_or_after_scenario=(upto[-1] if upto else None),
+                                           valgrind_exit=r['rc'], report=r['tail'][:1800])))
+    ctx.info['c/memcheck_scenarios'] = nmem
+    ctx.add(memcheck_scenarios=nmem)
+    ctx.log('memcheck: scenarios that reached their site under valgrind:', nmem)
     # (b) schedules
     collect = bool(ctx.opts.get('collect'))
 
@@ -866,7 +958,7 @@ def run(ctx):
     ctx.sample(dict(injection=dict(flavour='verifying', entry='lookup', site='generation', action='register-better', warm=True)))
     ctx.sample(dict(schedule_harness='adapter/register||lookup', meaning='outcome letters: A = lookup saw the after-answer, B = before-answer, = both equal'))
     ctx.assumptions += ['scheduling points are call/line/return trace events in adapter.py, interface.py, declarations.py; C code between two events is atomic (GIL); memory ordering is not modelled',
-                        'memory safety is decided through the ownership audit (refcount of the cache container at the call-out + whether it was written afterwards), not through a memory checker',
+                        'memory safety is decided twice: through the ownership audit (refcount of the cache container at the call-out + whether it was written afterwards), and by running the enumerated injection scenarios unpinned under valgrind memcheck with PYTHONMALLOC=malloc (C implementation); the thread schedules are only covered by the audit',
                         'callbacks the property does not name (__hash__/__bool__ of keys) are outside the alphabet']
     return finish(
         ctx, 'model_checking',
